@@ -29,10 +29,13 @@ struct Cfg {
   string ip;         // initial priority per slot: '0' defined without priority, '1'..'9', '-' not defined
   int dt = 1;        // seconds the clock advances before each getNextPoll
   int warm = 0;      // unperturbed selections before the explored history (drift of g_lastPollOrder)
+  int chain = -1;    // slot whose initial definition is a CHAINED message (two part IDs): one poll entry like any other
   string str() const {
     char b[96];
     snprintf(b, sizeof(b), "n=%d;ip=%s;dt=%d;warm=%d", n, ip.c_str(), dt, warm);
-    return b;
+    string r = b;
+    if (chain >= 0) r += ";chain=" + std::to_string(chain);
+    return r;
   }
 };
 
@@ -127,8 +130,9 @@ class World {
     delete m_otherMap;
   }
 
-  static string defLine(int k, int prio) {
-    char b[96];
+  static string defLine(int k, int prio, bool chained = false) {
+    char b[128];
+    if (chained && prio > 0) { snprintf(b, sizeof(b), "r%d,c,m%d,,,08,b509,0d0%d00;0d0%d01;0d0%d02,,,HEX:3\n", prio, k, k, k, k); return b; }
     if (prio > 0) snprintf(b, sizeof(b), "r%d,c,m%d,,,08,b509,0d0%d00,,,UCH\n", prio, k, k);
     else snprintf(b, sizeof(b), "r,c,m%d,,,08,b509,0d0%d00,,,UCH\n", k, k);
     return b;
@@ -152,7 +156,7 @@ class World {
       char c = m_cfg.ip[k];
       m_req[k] = -1;
       if (c == '-') continue;
-      body += defLine(k, c - '0');
+      body += defLine(k, c - '0', k == m_cfg.chain);
       m_req[k] = c - '0';
     }
     bool ok = readCsv(body);
